@@ -239,6 +239,7 @@ func (gq *Schema) PossibleTypes(abstractType Abstract) []*Object {
 	return []*Object{}
 }
 func (gq *Schema) IsPossibleType(abstractType Abstract, possibleType *Object) bool {
+	verifEvent("schema.possible.check", gq, abstractType)
 	possibleTypeMap := gq.possibleTypeMap
 	if possibleTypeMap == nil {
 		possibleTypeMap = map[string]map[string]bool{}
@@ -249,6 +250,7 @@ func (gq *Schema) IsPossibleType(abstractType Abstract, possibleType *Object) bo
 		for _, possibleType := range gq.PossibleTypes(abstractType) {
 			typeMap[possibleType.Name()] = true
 		}
+		verifEvent("schema.possible.publish", gq, abstractType)
 		possibleTypeMap[abstractType.Name()] = typeMap
 	}
 
